@@ -1,14 +1,17 @@
 /-
 Line-protocol driver for the C19 model (query pipeline).
 
-  new <node> <node> ...      stage tree in preorder, node = <S|A|X|C><o|e|p|l|n><#children>
-                             (S sync / A pooled / X pooled on a stopped pool / C pooled with a
+  new <node> <node> ...      stage tree in preorder, node = <S|A|Q|X|C><o|e|p|l|n><#children>
+                             (S sync / A pooled / Q pooled, context cancelled while the task is queued /
+                             X pooled on a stopped pool / C pooled with a
                              cancelled context on a saturated pool — X and C: the pool rejects the task;
                              o ok / e error / p execution panics / l Plan() panics / n NextStages()
                              panics); runs the caller of pipeline.Execute up to its first gate
   rel <k>                    goroutine k (0 = caller of Execute, k = k-th submitted task) is parked at
                              the gate in front of a stage execution: release it and run it to its next
                              gate or to its end
+  cwin <a> <b>               a (successful pooled leaf) parks inside its Complete() hook, b is released
+                             and runs, then a goes on (the window inside completeStage)
   end                        final observation
   leaf-new | leaf-send <nil|err>     LeafExecuteContext.SendResponse
   leafreq <node> ... | leafreq - | leafreq x    one request on the real leaf path whose stages form this tree
@@ -43,7 +46,7 @@ def parseNode (w : String) : Option (Run × Bool × Outcome × Nat) :=
   match w.toList with
   | a :: o :: k =>
     let run? : Option Run :=
-      if a = 'S' then some .inline else if a = 'A' then some .pooled
+      if a = 'S' then some .inline else if a = 'A' || a = 'Q' then some .pooled
       else if a = 'X' || a = 'C' then some .rejected else none
     let out? : Option (Bool × Outcome) :=
       if o = 'o' then some (false, .ok) else if o = 'e' then some (false, .error)
@@ -134,6 +137,31 @@ def step (st : St) (ws : List String) : St × String :=
         else (st, "bad-op not-at-gate")
       | none => (st, "bad-op no-such-goroutine")
     | _, _ => (st, "bad-op")
+  | ["cwin", a, b] =>
+    -- goroutine a (a successful pooled leaf stage) executes and is parked inside its Complete() hook,
+    -- i.e. in front of `track` (the hook runs under sm.mutex, so for everybody else the critical
+    -- section has not happened yet); goroutine b is released and runs to its next gate or end; then a
+    -- goes on to its end
+    match st.pipe, a.toNat?, b.toNat? with
+    | some s, some a, some b =>
+      match s.threads[a]?, s.threads[b]? with
+      | some ta, some tb =>
+        if atGate ta && atGate tb && a != b then
+          match stepAt cfg s a with
+          | some s1 =>
+            match (s1.threads[a]?).map (·.code) with
+            | some [Instr.track false] =>
+              match stepAt cfg s1 b with
+              | some s2 =>
+                let s3 := runToGate fuel s2 b
+                let s4 := runToGate fuel s3 a
+                ({ st with pipe := some s4 }, status s4)
+              | none => (st, "bad-op")
+            | _ => (st, "bad-op not-a-successful-leaf")
+          | none => (st, "bad-op")
+        else (st, "bad-op not-at-gate")
+      | _, _ => (st, "bad-op no-such-goroutine")
+    | _, _, _ => (st, "bad-op")
   | ["end"] =>
     match st.pipe with
     | some s => ({ st with pipe := none }, final s)
